@@ -831,7 +831,7 @@ fn main() {
     let mut t = Trace::from_args();
     let seed = seed_from_env();
     let thorough = arg_str("--tier").as_deref() == Some("thorough");
-    let nseq = arg_u64("--seqs", if thorough { 400 } else { 64 });
+    let nseq = arg_u64("--seqs", if thorough { 400 } else { 120 });
     let nlong = arg_u64("--long-seqs", if thorough { 45 } else { 9 });
     let len = arg_u64("--len", 40);
     let mut rng = Rng::new(seed);
